@@ -66,6 +66,6 @@ Count(s, b) == Cardinality({k \in 1..Len(s) : s[k] = b})
 Framing == LET f == Finish(es) IN
            /\ (es.cap >= 0 => Len(f.out) <= es.cap)
            /\ (f.err = NoFail =>
-                 /\ (f.out = <<>>) <=> (\A k \in 1..Len(units) : ~units[k].query)
+                 /\ (f.out = <<>>) <=> (\A k \in 1..Len(units) : ~units[k].query \/ UnitText(units[k].h) = <<>>)
                  /\ (f.out # <<>> => f.out[Len(f.out)] = 10))
 =========================================================================
